@@ -1082,6 +1082,33 @@ static void warm_state(G& g, Program& P, int base, int nslots, size_t around) {
 
 static void fam_c03_align(G& g, Plan& p) {
   p.nslots = 120; p.progs.resize(1); Program& P = p.progs[0];
+  if (g.chance(0.3)) {
+    // the small-block fast path of aligned allocation: a warm page of one size class (usually not a multiple of the alignment), aligned
+    // requests with all kinds of offsets interleaved with plain requests so that the head of the free list takes every residue
+    p.nslots = 300;
+    auto bs = bin_sizes(); const int rounds = 1 + (int)g.below(3); int sl = 0;
+    if (g.chance(0.3)) P.ops.push_back(mkh(OP_heap_new, 0));
+    for (int rd = 0; rd < rounds; rd++) {
+      size_t b = bs[6 + g.below(27)]; if (b < 16) b = 16;
+      size_t req = (g.padded && b > 8) ? b - 8 : b;
+      size_t al = (size_t)1 << (4 + g.below(6)); while (al > req && al > 16) al >>= 1;
+      int warm = (int)g.below(12);
+      for (int i = 0; i < warm && sl < 280; i++) P.ops.push_back(mk(OP_malloc, sl++, req));
+      int n = 10 + (int)g.below(40);
+      for (int i = 0; i < n && sl < 290; i++) {
+        if (g.chance(0.4)) { P.ops.push_back(mk(g.chance(0.8) ? OP_malloc : OP_zalloc, sl++, req - g.below(2))); continue; }
+        if (g.chance(0.1) && sl > 0) { P.ops.push_back(mk(OP_free, (int)g.below((uint64_t)sl))); continue; }
+        size_t off = g.pick<size_t>({0, 8, 16, 16, 32, 48, al / 2, al - 16, al + 16, 3 * al / 2, 24, 40}); if (g.build == "DBG") off &= ~(size_t)7;
+        int v = (int)g.below(10);
+        Op o = mk(v < 6 ? OP_malloc_aligned_at : v < 8 ? OP_zalloc_aligned_at : OP_calloc_aligned_at, sl++, req, al, off);
+        if (o.code == OP_calloc_aligned_at) { o.a = 1; o.b = req; o.c = al; o.d = off; }
+        if (g.chance(0.2)) o.hslot = 0;
+        P.ops.push_back(o);
+      }
+    }
+    P.ops.push_back(mk(OP_verify_all));
+    return;
+  }
   int K = 6 + (int)g.below(25);
   for (int k = 0; k < K; k++) {
     int slot = (int)g.below(60);
@@ -1242,7 +1269,7 @@ static void fam_c05_realloc(G& g, Plan& p) {
     else if (x < 40) P.ops.push_back(gen_free(g, slot));
     else if (x < 44) P.ops.push_back(mk(OP_collect, -1, g.below(2)));
     else if (x < 48) { Op o = mk(OP_reallocn, slot, SIZE_MAX / 2 + g.below(1000), 2 + g.below(8)); P.ops.push_back(o); }                   // overflowing count*size: must fail, block untouched
-    else if (x < 50) { Op o = mk(g.chance(0.5) ? OP_recalloc : OP_reallocarray, slot, (uint64_t)1 << 40, (uint64_t)1 << 40); o.hslot = -1; P.ops.push_back(o); }
+    else if (x < 50) { int w = (int)g.below(3); Op o = mk(w == 0 ? OP_recalloc : w == 1 ? OP_reallocarray : OP_reallocarr, slot, (uint64_t)1 << 40, (uint64_t)1 << 40); o.hslot = -1; P.ops.push_back(o); }      // count*size overflows: must fail and leave the block (and the caller's pointer) alone
     else {
       Op o = gen_realloc(g, slot, mix, nh, true);
       if (with_faults && g.chance(0.15)) { OpFault f; f.kind = OS_MMAP; f.nth = 0; f.persistent = false; o.faults.push_back(f); o.flags |= OPF_MAY_FAIL; if (g.chance(0.5)) { OpFault f2; f2.kind = OS_MPROTECT_RW; f2.nth = 0; o.faults.push_back(f2); } }
@@ -1641,7 +1668,8 @@ static void fam_c15_arenas(G& g, Plan& p) {
       int slot = (int)g.below(150); int k = (int)g.below(100);
       if (k < 30) P.ops.push_back(mk(OP_free, slot));
       else if (k < 34) P.ops.push_back(mk(OP_collect, -1, g.below(2)));
-      else if (k < 37) P.ops.push_back(mk(OP_check_owner, slot));
+      else if (k < 36) P.ops.push_back(mk(OP_check_owner, slot));
+      else if (k < 37) { int a = (int)g.below((uint64_t)narenas); P.ops.push_back(mkh(OP_heap_delete, a)); P.ops.push_back(mkh(OP_heap_new_in_arena, a, a)); }   // the bound heap goes away while its blocks stay live; the default heap must not inherit arena memory
       else if (k < 40) { Op o = mk(OP_realloc, slot, gen_size(g, mix)); o.hslot = g.chance(0.5) ? (int)g.below((uint64_t)narenas) : -1; o.flags = OPF_MAY_FAIL; P.ops.push_back(o); }
       else {
         Op o = mk(g.chance(0.1) ? OP_zalloc : OP_malloc, slot, g.chance(0.1) ? 17 * MiB + g.below(30 * MiB) : gen_size(g, mix));
